@@ -167,6 +167,7 @@ def c17_scripts(tier, lens, seed):
 
 
 def run_scripts(ctx, scripts, tag):
+    ctx.vh_keep = getattr(ctx, "vh_keep", None) or ["writer.go", "conn.go"]
     sp = os.path.join(ctx.work, "cscripts-%s.ndjson" % tag)
     tp = os.path.join(ctx.work, "ctraces-%s.ndjson" % tag)
     write_ndjson(sp, scripts)
